@@ -130,9 +130,9 @@ def run(tier, seed, prop=PROP):
         n2, s2 = xc.validate(sc2, wd, "rnd", rep, 8 if q else 14, refs=refs, owner=prop)
         kinds = {(i["t"], i.get("cc")) for s in sc2 for i in s["_prog"].insns}
         if prop == PROP:
-            pst = pc.judge(rep, 300 if q else 20000, 12, seed + 900, wd, "pg", PROG_OWNS, jobs=8 if q else 14)
+            pst = pc.judge_many(rep, 300 if q else 20000, 12, seed + 900, wd, "pg", PROG_OWNS, jobs=8 if q else 14)
             if not q:
-                pc.judge(rep, 1500, 30, seed + 901, wd, "pl", PROG_OWNS, jobs=14, stats=pst)
+                pc.judge_many(rep, 3000, 30, seed + 901, wd, "pl", PROG_OWNS, jobs=14, stats=pst, batch=1500)
             pc.cov(rep, pst)
         rep.cov.update({
             "states": res["distinct"], "transitions": res["states"], "traces_validated_against_impl": s1 + s2,
